@@ -11,7 +11,7 @@ var propC02 = &modelProp{
 	profile: func() *Profile {
 		return &Profile{
 			Property: "C02", MaxOps: pick(14, 30),
-			W: map[string]int{"insert": 8, "update": 6, "delete": 3, "many": 2, "query": 12, "searchDelete": 3, "reopen": 2, "resurrect": 1},
+			W:          map[string]int{"insert": 8, "update": 6, "delete": 3, "many": 2, "query": 12, "searchDelete": 3, "reopen": 2, "resurrect": 1},
 			AllowCache: true, AllowCompress: true, AllowAsync: true,
 			MinIndexed: 1, MaxIndexed: 5, MaxUnique: 1, CasePaths: 1,
 			TinyBias: 60, BigBias: 15, HookBias: 0, RichShape: 5, MaxLeaves: 3,
@@ -22,7 +22,7 @@ var propC02 = &modelProp{
 	nt: func(e *Env) bool {
 		return (e.flags["query-partial-result"] > 0 || e.flags["sweep-query-partial-result"] > 0) && (e.flags["update-moved-indexed-key"] > 0 || e.flags["delete"] > 0)
 	},
-	rule: "histories (inserts, key-moving updates, deletes, batches, reopen) with tie- and boundary-heavy values; explicit query ops are chains of up to 3 {path,operator,probe} leaves joined by And/Or over top-level, nested, through-nil-pointer and embedded paths, indexed or not, probes from tiny/neighbour/extreme/free sources, consumed by Collect/Assign/One/AssignOne/Len/Delete; plus after every op an automatic sweep: for every indexed path and 11 fixed (mostly unindexed) paths, every operator x {every distinct stored value, its successor, min, max, below-min, above-max}. Oracle: model predicate over all stored objects: result multiset == expected (soundness and completeness), Len, And = intersection, Or = duplicate-free union, search-delete removes exactly the matches, Control stays nil. The same program is also run with the index assignment of non-unique paths complemented (metamorphic: indexing must not change results). Non-trivial: >=1 query (explicit or sweep) with a non-empty, non-total result in a case with >=1 key-moving update or delete. Distinct by program hash.",
+	rule:  "histories (inserts, key-moving updates, deletes, batches, reopen) with tie- and boundary-heavy values; explicit query ops are chains of up to 3 {path,operator,probe} leaves joined by And/Or over top-level, nested, through-nil-pointer and embedded paths, indexed or not, probes from tiny/neighbour/extreme/free sources, consumed by Collect/Assign/One/AssignOne/Len/Delete; plus after every op an automatic sweep: for every indexed path and 11 fixed (mostly unindexed) paths, every operator x {every distinct stored value, its successor, min, max, below-min, above-max}. Oracle: model predicate over all stored objects: result multiset == expected (soundness and completeness), Len, And = intersection, Or = duplicate-free union, search-delete removes exactly the matches, Control stays nil. The same program is also run with the index assignment of non-unique paths complemented (metamorphic: indexing must not change results). Non-trivial: >=1 query (explicit or sweep) with a non-empty, non-total result in a case with >=1 key-moving update or delete. Distinct by program hash.",
 	after: nil,
 }
 
@@ -73,7 +73,7 @@ var propC03 = &modelProp{
 	profile: func() *Profile {
 		return &Profile{
 			Property: "C03", MaxOps: pick(15, 35),
-			W: map[string]int{"insert": 8, "update": 8, "resave": 2, "delete": 4, "resurrect": 2, "many": 2, "bulk": 1, "reopen": 3, "abandonReopen": 1, "upsertUUID": 1, "query": 1},
+			W:          map[string]int{"insert": 8, "update": 8, "resave": 2, "delete": 4, "resurrect": 2, "many": 2, "bulk": 1, "reopen": 3, "abandonReopen": 1, "upsertUUID": 1, "query": 1},
 			AllowCache: true, AllowCompress: true, AllowAsync: true,
 			MinUnique: 1, MaxUnique: 3, MaxIndexed: 1, CasePaths: 1,
 			TinyBias: 70, BigBias: 12, HookBias: 8, RichShape: 5, MaxLeaves: 1,
@@ -97,7 +97,7 @@ var propC04 = &modelProp{
 	profile: func() *Profile {
 		return &Profile{
 			Property: "C04", MaxOps: pick(12, 30),
-			W: map[string]int{"insert": 8, "update": 5, "delete": 3, "resurrect": 1, "many": 2, "bulk": 1, "query": 3, "searchDelete": 1, "reopen": 6, "abandonReopen": 3, "deleteAll": 1, "upsertUUID": 1},
+			W:          map[string]int{"insert": 8, "update": 5, "delete": 3, "resurrect": 1, "many": 2, "bulk": 1, "query": 3, "searchDelete": 1, "reopen": 6, "abandonReopen": 3, "deleteAll": 1, "upsertUUID": 1},
 			AllowCache: true, AllowCompress: true, AllowAsync: true, AllowLower: true,
 			MinIndexed: 1, MaxIndexed: 5, MaxUnique: 2, CasePaths: 1,
 			TinyBias: 25, BigBias: 45, HookBias: 5, RichShape: 25, MaxLeaves: 2,
@@ -122,7 +122,7 @@ var propC07 = &modelProp{
 	profile: func() *Profile {
 		return &Profile{
 			Property: "C07", MaxOps: pick(8, 16),
-			W: map[string]int{"insert": 4, "update": 1, "delete": 1, "many": 8, "bulk": 8, "reopen": 1},
+			W:          map[string]int{"insert": 4, "update": 1, "delete": 1, "many": 8, "bulk": 8, "reopen": 1},
 			AllowCache: true, AllowCompress: true, AllowAsync: true,
 			MinUnique: 0, MaxUnique: 2, MaxIndexed: 2, CasePaths: 1,
 			TinyBias: 65, BigBias: 10, HookBias: 30, RichShape: 5, MaxLeaves: 1,
@@ -146,16 +146,16 @@ var propC13 = &modelProp{
 	profile: func() *Profile {
 		return &Profile{
 			Property: "C13", MaxOps: pick(16, 35),
-			W: map[string]int{"insert": 10, "update": 4, "delete": 2, "many": 2, "query": 14, "reopen": 1},
+			W:          map[string]int{"insert": 10, "update": 4, "delete": 2, "many": 2, "query": 14, "reopen": 1},
 			AllowCache: true, AllowCompress: true, AllowAsync: true,
 			MinIndexed: 2, MaxIndexed: 5, MaxUnique: 0, CasePaths: 0,
 			ConsPaths: []string{"I64", "I8", "U8", "U64", "F64", "S", "T", "In.N", "Pt.S", "Emb.EN", "F32"},
-			TinyBias: 75, BigBias: 10, HookBias: 0, RichShape: 0, MaxLeaves: 3,
+			TinyBias:  75, BigBias: 10, HookBias: 0, RichShape: 0, MaxLeaves: 3,
 			LimitPct: 70, IndexedLastPct: 85, AndOnlyPct: 80,
 		}
 	},
 	opts: RunOpts{SweepLevel: 1, SweepEveryOp: false, Control: true},
-	nt: func(e *Env) bool { return e.flags["query-ordered-ties-limit-cuts"] > 0 },
+	nt:   func(e *Env) bool { return e.flags["query-ordered-ties-limit-cuts"] > 0 },
 	rule: "tie-heavy collections; queries that are single comparisons or And chains (Or chains are generated too but carry no order obligation) ending on an indexed path, limits 0,1,2,3,5,100,MaxUint64, with and without Reverse, consumers Collect/Assign/One/AssignOne. Oracle: results are distinct members of the model's match set, exactly min(limit,|matches|) of them, whose key sequence equals the first keys of the model's match set sorted non-increasing (non-decreasing with Reverse) - tie order left free; One = first key or ErrNoObjectFound iff no match; AssignIndex = the model's multiset of values in non-increasing order (times by UnixNano), checked after every op. Non-trivial: an ordered query whose match set has >=2 distinct keys and >=1 tie with a limit strictly between 0 and |matches|. Distinct by program hash.",
 }
 
@@ -170,15 +170,15 @@ var propC15 = &modelProp{
 	profile: func() *Profile {
 		return &Profile{
 			Property: "C15", MaxOps: pick(10, 25),
-			W: map[string]int{"insert": 8, "update": 5, "resave": 2, "many": 5, "bulk": 4, "delete": 1, "query": 2, "reopen": 1},
+			W:          map[string]int{"insert": 8, "update": 5, "resave": 2, "many": 5, "bulk": 4, "delete": 1, "query": 2, "reopen": 1},
 			AllowCache: true, AllowCompress: true, AllowAsync: true,
 			MaxIndexed: 2, MaxUnique: 1, CasePaths: 2,
 			ConsPaths: []string{"S", "S", "I64", "S2", "Pt.S"},
-			TinyBias: 75, BigBias: 10, HookBias: 85, RichShape: 0, MaxLeaves: 1,
+			TinyBias:  75, BigBias: 10, HookBias: 85, RichShape: 0, MaxLeaves: 1,
 		}
 	},
 	opts: RunOpts{SweepLevel: 1, SweepEveryOp: true, Control: true, FocusPaths: []string{"S", "I64"}},
-	nt: func(e *Env) bool { return e.flags["validity-depends-on-transform"] > 0 },
+	nt:   func(e *Env) bool { return e.flags["validity-depends-on-transform"] > 0 },
 	rule: "documents whose Transform (append a suffix to S, bump I64) and Validate (reject S == x, reject len(S) >= n; records what it saw) are driven by stored data, with S frequently upper/lower constrained, indexed or unique; entry points InsertOrUpdate, InsertOrUpdateMany, InsertOrUpdateBulk. Oracle: model applies Transform -> schema case transforms -> Validate; stored value == model's transformed value on every read path; the value Validate observed == the stored value (order proof, single inserts); invalid => errors.Is(err, ErrInvalidObject), object absent from every read path, batch untouched. Non-trivial: >=1 object whose validity differs between the raw and the transformed+canonicalised value. Distinct by program hash.",
 }
 
@@ -193,11 +193,11 @@ var propC16 = &modelProp{
 	profile: func() *Profile {
 		return &Profile{
 			Property: "C16", MaxOps: pick(12, 30),
-			W: map[string]int{"insert": 8, "update": 4, "resave": 2, "many": 2, "delete": 1, "query": 10, "searchDelete": 1, "reopen": 1},
+			W:          map[string]int{"insert": 8, "update": 4, "resave": 2, "many": 2, "delete": 1, "query": 10, "searchDelete": 1, "reopen": 1},
 			AllowCache: true, AllowCompress: true, AllowAsync: true,
 			MaxIndexed: 3, MaxUnique: 2, CasePaths: 3,
 			ConsPaths: []string{"S", "S2", "In.S", "Pt.S", "Emb.ES", "H.RejectS"},
-			TinyBias: 35, BigBias: 35, HookBias: 5, RichShape: 0, MaxLeaves: 2,
+			TinyBias:  35, BigBias: 35, HookBias: 5, RichShape: 0, MaxLeaves: 2,
 		}
 	},
 	opts: RunOpts{SweepLevel: 1, SweepEveryOp: false, Control: true, FocusPaths: []string{"S", "S2", "In.S", "Pt.S", "Emb.ES"}},
